@@ -22,7 +22,7 @@ BOUNDS = {
 }
 STUBS = ["none"]
 ASSUMPTIONS = ["date-valued properties are not exercised (datetime is C)"]
-OUTSIDE = ["a WWW-Authenticate challenge with neither token nor parameters", "date / expires / last_modified / retry_after dates", "content_security_policy and mimetype_params views (same CallbackDict mechanism as cache_control)", "longer histories"]
+OUTSIDE = ["a WWW-Authenticate challenge with neither token nor parameters", "datetimes with a non-UTC offset in the date properties", "content_security_policy and mimetype_params views (same CallbackDict mechanism as cache_control)", "longer histories"]
 
 SET_PROPS = ["vary", "allow", "content_language"]
 SET_HEADER = {"vary": "Vary", "allow": "Allow", "content_language": "Content-Language"}
@@ -283,6 +283,36 @@ def body_scalar(I, X, prop="content_length"):
     return ok, {"header": hdr}
 
 
+def body_date_prop(I, X, prop="last_modified", month=2, aware=True):
+    """date-valued properties (date, last_modified, expires, retry_after): assigning a
+    datetime writes the IMF-fixdate text of that instant and the property reads back as the same
+    instant (UTC-aware), with year / day / time solver integers"""
+    import datetime as dtm
+
+    from harness.dtmodel import SymDatetime, valid_day
+    from werkzeug.sansio.response import Response
+
+    y = X.int("y", 1000, 9999)
+    d = X.int("d", 1, 31)
+    valid_day(X, y, month, d)
+    f = (y, month, d, X.int("hh", 0, 23), X.int("mi", 0, 59), X.int("ss", 0, 59))
+    tz = dtm.timezone.utc if aware else None
+    value = SymDatetime(f, tz) if X.symbolic else dtm.datetime(*f, tzinfo=tz)
+    resp = Response()
+    I.setattr(resp, prop, value)
+    name = {"date": "Date", "last_modified": "Last-Modified", "expires": "Expires", "retry_after": "Retry-After"}[prop]
+    hdr = I.call(resp.headers.get, (name,))
+    back = I.getattr(resp, prop)
+    if hdr is None or back is None:
+        return False, {"header": hdr}
+    mon = ["Jan", "Feb", "Mar", "Apr", "May", "Jun", "Jul", "Aug", "Sep", "Oct", "Nov", "Dec"][month - 1]
+    exp_tail = pconcat(pstr(f[2]).zfill(2), " ", mon, " ", pstr(y), " ", pstr(f[3]).zfill(2), ":", pstr(f[4]).zfill(2), ":", pstr(f[5]).zfill(2), " GMT")
+    bf = getattr(back, "fields", None) or (back.year, back.month, back.day, back.hour, back.minute, back.second)
+    tz_ok = isinstance(back.tzinfo, dtm.tzinfo) and back.tzinfo.utcoffset(None) == dtm.timedelta(0)
+    ok = pand(plen(hdr) == 29, peq(hdr[5:], exp_tail), tz_ok, *[peq(a, b) for a, b in zip(bf, f)])
+    return ok, {"header": hdr}
+
+
 def make_stubs():
     from harness.c07 import make_stubs as m
 
@@ -308,6 +338,10 @@ def obligations(tier, seed):
     for ops in itertools.product(["set", "unset", "set-length-none", "set-unsatisfied"], repeat=k):
         out.append({"name": f"content_range[{'+'.join(ops)}]", "body": "body_content_range", "params": {"ops": list(ops)},
                     "opts": {"budget_s": 600, "ctx": ctx}, "witness": ops[:2] == ("set", "unset")})
+    for prop in ("date", "last_modified", "expires", "retry_after"):
+        for month, aware in ([(2, True), (11, False)] if quick else [(m, a) for m in (1, 2, 6, 12) for a in (True, False)]):
+            out.append({"name": f"date_prop[{prop},month={month},aware={aware}]", "body": "body_date_prop", "params": {"prop": prop, "month": month, "aware": aware},
+                        "opts": {"budget_s": 900, "ctx": {"bv_ints": True, "max_digits": 6}}})
     for prop in ("content_length", "age", "access_control_max_age", "retry_after"):
         out.append({"name": f"scalar[{prop}]", "body": "body_scalar", "params": {"prop": prop}, "opts": {"budget_s": 600, "ctx": ctx}, "witness": True})
     return out
